@@ -188,7 +188,11 @@ func vStrHas(s string, c byte) bool {
 	return false
 }
 
-func vQuiesce()                        { time.Sleep(150 * time.Millisecond) }
+func vQuiesce() { time.Sleep(150 * time.Millisecond) }
+
+// vSettle waits until background goroutines have settled, including their short timeouts.
+func vSettle() { time.Sleep(600 * time.Millisecond) }
+
 func vThreadsLive() int                { return -1 }
 func vDeepEqual(a, b interface{}) bool { return reflect.DeepEqual(a, b) }
 
